@@ -26,6 +26,8 @@ inductive BodyKind where
 /-- Conditions occurring in step functions. The current byte is implicit. -/
 inductive Cond where
   | byteEq (b : Nat)                 -- c == b   (EOF is byte 0)
+  | byteLe (b : Nat)                 -- c <= b
+  | byteGe (b : Nat)                 -- c >= b
   | eqCaseWs                         -- c == caseWhitespace(c)
   | eqCaseNl                         -- c == caseNewLine(c)
   | isWs | isNl                      -- isWhitespace(c) / IsNewLine(c)
